@@ -392,7 +392,8 @@ Definition val_eqb (a b : val) : bool :=
 Definition ol_get (l : list (okey * val)) (k : okey) : option val :=
   match find (fun kv => okey_eqb (fst kv) k) l with Some kv => Some (snd kv) | None => None end.
 (* the real code's observation: values of the listed keys (every non-input variable of every node) and, for each
-   listed (source variable, target variable) pair, the summed weight of the edges between them *)
+   (source variable, target variable) pair with a non-zero coefficient in the compiled vector field, that coefficient =
+   the summed weight of the model's edges between them; every model edge must be among the listed pairs *)
 Definition weight_of (a : vars) : Qc := match dget "weight"%string a with Some (Sc q) => q | _ => 1%Qc end.
 Definition edge_sum (es : list edge) (s t : string) : Qc :=
   fold_left (fun acc e => let '(s', t', a) := e in
@@ -404,6 +405,8 @@ Definition obs_ok (inputs : list string) (model : hout) (keys : list (okey * val
     forallb (fun kv => match ol_get ns (fst kv) with Some v => val_eqb v (snd kv) | None => false end) keys
     && Nat.eqb (List.length (filter (fun kv => negb (is_input inputs (fst kv))) ns)) (List.length keys)
     && forallb (fun p => let '(s, t, w) := p in Qc_eqb (edge_sum es s t) w) pairs
+    && forallb (fun e => let '(s, t, _) := e in
+                         existsb (fun p => let '(s', t', _) := p in String.eqb s s' && String.eqb t t') pairs) es
   | _ => false
   end.
 Inductive pyout := PDone | PRaised | PObs (keys : list (okey * val)) (pairs : list (string * string * Qc)).
